@@ -521,12 +521,17 @@ def fit_case(draw):
     case = draw(two_stacks(n1_range=(nb, nb), n2_range=(1, 3), min_keep=nb + 2, nonneg=True))
     case.update(mode=mode, fn=fn, method=method)
     case['sigma'] = draw(mild_sigma_spec(case['n'])) if method in WHITENED else None
+    # a ridge penalty (Fitter(fit_regress, ridge_weight=...)) is part of the fit: the same penalty
+    # with and without missing entries
+    case['ridge'] = draw(st.sampled_from([0.0, 0.0, 0.5, 4.0]))
     return case
 
 
-def fit_reference(xb, y, fn, v):
-    """theta (unit length) of the (non-negative) generalised least squares fit of y by xb rows,
-    and the condition number of the normal equations"""
+def fit_reference(xb, y, fn, v, ridge=0.0):
+    """theta (unit length) of the (non-negative, ridge-penalised) generalised least squares fit of
+    y by xb rows: argmin (y - theta xb) V^-1 (y - theta xb)' + ridge |theta|^2, and the condition
+    number of the normal equations (the solution is positively homogeneous in y, so its direction
+    does not depend on how the pooled RDM is scaled)."""
     k = len(xb)
     vi = np.eye(xb.shape[1]) if v is None else np.linalg.inv(v)
     gram = xb @ vi @ xb.T
@@ -536,14 +541,18 @@ def fit_reference(xb, y, fn, v):
     if v is not None and np.linalg.cond(v) > 100:
         raise Reject('ill-conditioned V', 'degenerate:ill-conditioned-V')
     if fn == 'regress':
-        theta = np.linalg.solve(gram, xb @ vi @ y)
+        theta = np.linalg.solve(gram + ridge * np.eye(k), xb @ vi @ y)
     else:
         from scipy.optimize import nnls
         w, u = np.linalg.eigh((vi + vi.T) / 2)
         root = (u * np.sqrt(w)) @ u.T
-        theta, _ = nnls(root @ xb.T, root @ y)
+        a_mat, b_vec = root @ xb.T, root @ y
+        if ridge:
+            a_mat = np.vstack([a_mat, math.sqrt(ridge) * np.eye(k)])
+            b_vec = np.concatenate([b_vec, np.zeros(k)])
+        theta, _ = nnls(a_mat, b_vec)
         # the active set must be unambiguous for a comparison of solutions
-        grad = xb @ vi @ (y - theta @ xb)
+        grad = xb @ vi @ (y - theta @ xb) - ridge * theta
         if np.any((theta == 0) & (np.abs(grad) < 1e-6 * max(1.0, np.abs(grad).max()))):
             raise Reject('degenerate active set', 'degenerate:nnls-boundary')
     nrm = math.sqrt(float(theta @ theta))
@@ -580,6 +589,7 @@ def check_fit(case):
                             ''.join('x' if k else '.' for k in case['m2'])),
                         'fit_%s:misaligned' % case['fn'])
     sk = sigma_arr(case['sigma'])
+    ridge = float(case.get('ridge') or 0.0)
     sig = 'fit_%s:common:%s' % (case['fn'], method)
     if case['mask_kind'] == 'bootstrap':
         idx = list(case['idx'])
@@ -619,7 +629,7 @@ def check_fit(case):
             raise Reject(str(e), 'degenerate:zero-pool')
         if method in cref.CORR_TYPES:
             y = y - y.mean()
-        wants.append(fit_reference(xb, y, case['fn'], v)[0])
+        wants.append(fit_reference(xb, y, case['fn'], v, ridge)[0])
     want = wants[0]
     # library whitening solves V x = b by conjugate gradients with rtol 1e-5: relative error of
     # V^-1 x up to cond(V)*1e-5 = 1e-3 on the restricted domain (cond(V) <= 100), doubled.
@@ -627,6 +637,8 @@ def check_fit(case):
     atol = TOL_FIT_CG if v is not None else 1e-7
     # fit_regress_nn's active-set loop stops on an absolute threshold (100*eps) and can spin
     # for ever on data with a large dynamic range: inconclusive, not a C13 matter
+    if ridge:
+        kwargs['ridge_weight'] = ridge
     with core.watchdog(3):
         theta = lib(fn, model, data, method=method, sigma_k=sk, on_error='violation',
                     sig=sig + ':raises', **kwargs)
@@ -646,7 +658,8 @@ def classify_fit(case):
         labels.append('where:' + case['where'])
         return labels, True
     keep = case_keep(case)
-    labels += common_labels(case, keep) + ['n_basis=%d' % len(case['v1'])]
+    labels += common_labels(case, keep) + ['n_basis=%d' % len(case['v1']),
+                                           'ridge' if case.get('ridge') else 'no-ridge']
     if case['method'] in WHITENED:
         labels.append(sigma_label(case['sigma']))
     return labels, not all(keep)
